@@ -7,7 +7,7 @@
    number of duplicates, any minimum size >= 1 and any fuel > length of the input.  The public wrapper
    (cluster_spacepoints_pub) uses 13 and fuel = length + 1. *)
 From Coq Require Import Permutation.
-From AG Require Import Base.Prelude Base.Res Recon.Vec Recon.Cluster Recon.Cluster_proofs.
+From AG Require Import Base.Prelude Base.Res Recon.Vec Recon.Cluster Recon.Cluster_proofs Recon.Vertex Recon.Vertex_proofs.
 Local Open Scope nat_scope.
 
 (* every unwrap of remove_unchecked / of the remainder loop succeeds and every loop ends within the
@@ -78,4 +78,39 @@ Qed.
 Example C15_nonvacuous_pub :
   cluster_spacepoints_pub (fun _ => [1; 2]%positive) (fun _ _ => true) (repeat 3%N 14 ++ [4%N])
   = Ok ([4%N :: repeat 3%N 14], []).
+Proof. vm_compute. reflexivity. Qed.
+
+(* ---- vertexing (vertex_fitting.rs): the filters, the z and radius comparisons, the unstable sort and the
+   Nelder-Mead fit are arbitrary functions; of the sort only "returns a rearrangement or panics" is assumed ---- *)
+
+(* the tracks of the primary vertex and the remainder together are the input tracks (as multisets) *)
+Theorem C15_vertex_partition :
+  forall (long_enough close_beam : track -> bool) (sortF : list track -> res (list track))
+         (zclose : track -> track -> bool) (cmp_r : list track -> list track -> res comparison)
+         (fit : list track -> res unit),
+  (forall l l', sortF l = Ok l' -> Permutation l' l) ->
+  forall tracks v rem,
+  find_vertices long_enough close_beam sortF zclose cmp_r fit tracks = Ok (v, rem) ->
+  Permutation (unwrap_or_nil v ++ rem) tracks.
+Proof. exact vertex_partition_lemma. Qed.
+Print Assumptions C15_vertex_partition.
+
+(* a primary vertex is reported only with at least two tracks *)
+Theorem C15_primary_two_tracks :
+  forall (long_enough close_beam : track -> bool) (sortF : list track -> res (list track))
+         (zclose : track -> track -> bool) (cmp_r : list track -> list track -> res comparison)
+         (fit : list track -> res unit),
+  forall tracks c rem,
+  find_vertices long_enough close_beam sortF zclose cmp_r fit tracks = Ok (Some c, rem) ->
+  2 <= length c.
+Proof. exact primary_two_tracks_lemma. Qed.
+Print Assumptions C15_primary_two_tracks.
+
+(* non-vacuity: a sort that is a rearrangement (here: reversal); z-close when ids differ by at most 1; two
+   clusters of two tracks tie in size and in summed radius, the later one wins (max_by keeps the last) *)
+Example C15_vertex_nonvacuous :
+  find_vertices (fun t => negb (t =? 9)%N) (fun t => negb (t =? 8)%N) (fun l => Ok (rev l))
+                (fun a b => (N.max a b - N.min a b <=? 1)%N) (fun _ _ => Ok Eq) (fun _ => Ok tt)
+                [1; 9; 2; 8; 6; 5]%N
+  = Ok (Some [2; 1]%N, [6; 9; 5; 8]%N).
 Proof. vm_compute. reflexivity. Qed.
